@@ -342,6 +342,13 @@ def run_harness(h, known=(), want_trace=True, deadline=None):
         except EngineError as e:
             res["errors"].append(dict(kind=type(e).__name__, harness=h.name, error=str(e),
                                       tb=traceback.format_exc()[-1500:]))
+            if isinstance(e, core.SymbolicEscape):
+                # the code left the modelled fragment (float(), ...): nothing can be PROVEN for this harness and
+                # the error above stands; but a violation can still be SHOWN - probe boundary values concretely
+                try:
+                    _escape_probe(h, eng, res, known)
+                except Exception as e2:  # noqa
+                    res["errors"].append(dict(kind="escape-probe-error", harness=h.name, error=repr(e2)))
         except Exception as e:
             res["errors"].append(dict(kind="harness-exception", harness=h.name, error=repr(e),
                                       tb=traceback.format_exc()[-1500:]))
@@ -357,6 +364,59 @@ def run_harness(h, known=(), want_trace=True, deadline=None):
     res["funcs"] = sorted(tracer.funcs)
     res["wall_s"] = time.time() - t0
     return res
+
+
+def _escape_probe(h, eng, res, known, budget=4000):
+    """After a SymbolicEscape: run the real code CONCRETELY (no shims) on boundary values of every declared
+    integer input (one input varied at a time around a base point: range ends, 0, +-1, 2**k-1, 2**k, 2**k+1 and
+    their negatives).  A failing post-condition is a replayed violation by construction.  Finding nothing proves
+    nothing: the SymbolicEscape error is kept, so the check still does not pass."""
+    decl = dict(eng.inputs)
+    base = {}
+    for k, v in decl.items():
+        if isinstance(v, SymInt):
+            base[k] = min(max(0, v.lo), v.hi)
+        elif isinstance(v, SymBool):
+            base[k] = False
+        else:
+            base[k] = v
+    runs = 0
+    found = set()
+    for k, v in decl.items():
+        if not isinstance(v, SymInt):
+            continue
+        cands = {v.lo, v.hi, 0, 1, -1}
+        n = max(abs(v.lo), abs(v.hi)).bit_length() + 1
+        for b in range(n + 1):
+            for c in ((1 << b) - 1, 1 << b, (1 << b) + 1):
+                cands.update((c, -c))
+        for c in sorted(x for x in cands if v.lo <= x <= v.hi):
+            if runs >= budget:
+                return
+            runs += 1
+            values = dict(base)
+            values[k] = c
+            try:
+                inp, out = concrete_run(h, values)
+                posts = concrete_post(h, inp, out)
+            except (Abort, PathCut):
+                continue
+            for label, okv in posts.items():
+                if okv is not False or label in found:
+                    continue
+                inside = False
+                for kf in known:
+                    if kf.matches(h, label):
+                        try:
+                            inside = inside or bool(kf.region(inp, out))
+                        except Exception:
+                            inside = True
+                if inside:
+                    continue
+                found.add(label)
+                res["violations"].append(dict(harness=h.name, params=h.params, label=label,
+                                              inputs=_jsonable(values), module=type(h).__module__,
+                                              cls=type(h).__name__, found_by="concrete boundary probe after SymbolicEscape"))
 
 
 def _replays(h, values, label):
